@@ -1200,6 +1200,10 @@ package scipipe
 //@   ensures run-set-only-shrinks: forall k string :: k in procs ==> old(k in procs) && procs[k] == old(procs[k])
 //@   ensures only-driver-removed: forall k string :: old(k in procs) && !(k in procs) ==> old(procs[k]) == wf.driver
 //@   loop 0 invariant same: forall k string :: (k in procs <==> old(k in procs)) && procs[k] == old(procs[k])
+// A connection into a process outside the run set is cut (file ports and parameter ports alike), a connection into a
+// process of the run set is kept: per round of the two innermost loops.
+//@   loop 2 step foreign-remote-is-cut[C16]: ipt != nil && ipt.process != nil && !(procName(ipt.process) in procs) ==> !(iptName in opt.RemotePorts)
+//@   loop 4 step foreign-param-remote-is-cut[C16]: rpp != nil && rpp.process != nil && !(procName(rpp.process) in procs) ==> !(rppName in pop.RemotePorts)
 
 //@ func (*Workflow).runProcs(wf, procs)
 //@   props C04 C16
